@@ -26,10 +26,15 @@ NAN = 99
 KEYS = {1: "a", 2: "b", 3: "c"}
 
 
+def wv(v):
+    """the second value column: derived from v, missing in different rows than v"""
+    return {0: NAN, 1: 0, 2: 2, NAN: 1}[v]
+
+
 def mk(rows, col="v"):
-    idx = pd.DatetimeIndex([BASE + pd.Timedelta(hours=t) for _, _, t in rows])
+    idx = pd.DatetimeIndex([BASE + pd.Timedelta(seconds=t) for _, _, t in rows])
     df = pd.DataFrame({"v": [float("nan") if v == NAN else float(v) for v, _, _ in rows],
-                       "w": [float("nan") if v == NAN else float((v * 2 + 1) % 3) for v, _, _ in rows],
+                       "w": [float("nan") if wv(v) == NAN else float(wv(v)) for v, _, _ in rows],
                        "k": pd.Series([KEYS[k] for _, k, _ in rows], dtype=object, index=idx)}, index=idx)
     return df
 
@@ -82,7 +87,7 @@ def pandas_whole(family, agg, winkind, w, df, col):
             if winkind == "rows":
                 df = df.iloc[-w:] if w else df.iloc[:0]
             elif winkind == "time" and len(df):
-                df = df[df.index > df.index.max() - pd.Timedelta(hours=w)]
+                df = df[df.index > df.index.max() - pd.Timedelta(seconds=w)]
             s = df[col]
         if family in ("groupby", "wgroupby"):
             g = df.groupby("k")[col]
@@ -93,7 +98,7 @@ def pandas_whole(family, agg, winkind, w, df, col):
             return rat(len(s))
         return rat(getattr(s, agg)())
     if family == "rolling":
-        r = s.rolling(w if winkind == "rows" else "%dh" % w)
+        r = s.rolling(w if winkind == "rows" else "%ds" % w)
         return [rat(v) for v in getattr(r, agg)().tolist()]
     if family == "cumulative":
         return [rat(v) for v in getattr(s, agg)().tolist()]
@@ -113,6 +118,10 @@ def build(cfg, source, start=None, with_state=False):
     mid = None
     if pre == "pos":
         sdf = sdf[sdf[col] > 0]
+        mid = sdf
+    elif pre == "setinc":
+        _ = getattr(sdf, col).sum()          # the column has been used before ...
+        sdf[col] = sdf[col] + 1              # ... it is overwritten in place
         mid = sdf
     elif pre == "assign":
         sdf = sdf.assign(**{col: sdf[col] + 1 - 1})
@@ -146,7 +155,7 @@ def build(cfg, source, start=None, with_state=False):
         if wk == "rows":
             win = sdf.window(n=w, **wkw)
         elif wk == "time":
-            win = sdf.window(value="%dh" % w, **wkw)
+            win = sdf.window(value="%ds" % w, **wkw)
         else:
             win = sdf.expanding(**wkw)
         if fam == "wgroupby":
@@ -160,7 +169,7 @@ def build(cfg, source, start=None, with_state=False):
     if fam == "rolling":
         if start is None:
             wkw.pop("start", None)
-        x = sel(sdf.rolling(w if wk == "rows" else "%dh" % w, **wkw))
+        x = sel(sdf.rolling(w if wk == "rows" else "%ds" % w, **wkw))
         return getattr(x, agg)(), mid
     if fam == "cumulative":
         return getattr(sel(sdf), agg)(), mid
@@ -200,7 +209,7 @@ def run(cfg, batches, cut=None):
     for i, b in enumerate(batches, start=1):
         raw = mk(b)
         # the rows as the monitored column sees them (column w is derived from v)
-        st = {"raw": [[(v if v == NAN else (v * 2 + 1) % 3) if col == "w" else v, k, t] for v, k, t in b]}
+        st = {"raw": [[wv(v) if col == "w" else v, k, t] for v, k, t in b]}
         try:
             if cut is not None and i == cut + 1:
                 # a fresh pipeline seeded with the state exposed after batch `cut`
@@ -225,7 +234,7 @@ def run(cfg, batches, cut=None):
         eff = raw
         if LM is not None:
             eff = LM[-1]
-            st["mid"] = [[NAN if math.isnan(v) else int(v), {v2: k2 for k2, v2 in KEYS.items()}[k], int((ts - BASE) / pd.Timedelta(hours=1))]
+            st["mid"] = [[NAN if math.isnan(v) else int(v), {v2: k2 for k2, v2 in KEYS.items()}[k], int((ts - BASE) / pd.Timedelta(seconds=1))]
                          for v, k, ts in zip(eff[col].tolist(), eff["k"].tolist(), eff.index)]
         seen.append(eff)
         outA = LA[-1] if len(LA) > nA else None
@@ -257,6 +266,8 @@ def configs(tier):
     add("reduce", "sum", frame=True); add("reduce", "mean", frame=True, col="w"); add("reduce", "count", frame=True)
     add("reduce", "sum", pre="pos"); add("reduce", "mean", pre="pos"); add("reduce", "count", pre="assign")
     add("reduce", "sum", getattr=True)
+    add("reduce", "sum", pre="setinc", getattr=True); add("reduce", "count", pre="setinc"); add("groupby", "sum", pre="setinc", getattr=True)
+    add("reduce", "mean", pre="setinc", getattr=True)
     for agg in ("sum", "count", "size", "mean", "var"):
         add("groupby", agg)
         add("groupby", agg, grouper="stream")
@@ -272,6 +283,8 @@ def configs(tier):
             add("window", agg, "time", t)
         add("wgroupby", "sum", "time", t); add("wgroupby", "mean", "time", t)
     add("window", "sum", "rows", 2, frame=True, col="w"); add("window", "mean", "time", 2, pre="pos")
+    add("window", "mean", "rows", 2, frame=True, col="w"); add("window", "mean", "rows", 1, frame=True, col="v")
+    add("window", "mean", "time", 2, frame=True, col="w"); add("window", "count", "rows", 2, frame=True, col="w")
     for agg in ("sum", "mean", "var", "count"):
         add("window", agg, "expanding", 0)
     for n in ((1, 2, 3) if tier != "quick" else (2, 3)):
